@@ -32,3 +32,11 @@ c06 = hdr + ex("C06_stray_rbrace", "}", "a stray } is a located ParseError (was 
  + ex("C06_multichar", "int x = 'uu';", "a multi-character constant made of suffix letters is an int constant (was ValueError)") \
  + ex("C06_located", "const;", "the message starts with a source location (was '?: ...')")
 open('/verif/coq/proofs/CrashExamples.v','w').write(c06)
+
+c18 = hdr + ex("C18_stray_at", "int x @ = 1;", "a stray '@' is rejected at its own position") \
+ + ex("C18_comment", "int x; /* c */", "a comment is not a token") \
+ + ex("C18_directive", "#define X 1\nint x;", "a directive other than #line / #pragma is rejected") \
+ + ex("C18_missing_bracket", "int f(int a) { return a[1; }", "a deleted ] is rejected") \
+ + ex("C18_extra_brace", "int f(void) { { return 1; }", "a duplicated { is rejected") \
+ + ex("C18_swapped_kind", "int f(void) { return g(1]; }", "a bracket of the wrong kind is rejected")
+open('/verif/coq/proofs/RejectExamples.v','w').write(c18)
